@@ -84,7 +84,29 @@ for m in T._MESSAGE_DIRECTION:
 for k, v in consts.items():
     if v not in methods:
         issue(k, "extra constant", None, v)
+import typing as _typing
+
+
+def _defined(k, v):
+    if isinstance(v, type):
+        return v.__module__ == T.__name__
+    if k.startswith("__") or k.isupper() or getattr(_typing, k, None) is v:
+        return False
+    return _typing.get_origin(v) is not None or isinstance(v, _typing.ForwardRef)
+
+
+# the registry is read here AFTER the first converter was created (top of this file) and, in a fresh interpreter, right after import
 for k, v in vars(T).items():
-    if isinstance(v, type) and v.__module__ == T.__name__ and k not in T.ALL_TYPES_MAP:
-        issue(k, "type not in registry")
+    if _defined(k, v) and k not in T.ALL_TYPES_MAP:
+        issue(k, "type not in registry", "present (history: import lsprotocol.types; converters.get_converter(); read ALL_TYPES_MAP)", "absent")
+import subprocess
+_p = subprocess.run([sys.executable, "-c", "import json, typing\nimport lsprotocol.types as T\n"
+                     "d=[k for k,v in vars(T).items() if ((isinstance(v,type) and v.__module__==T.__name__) or (not isinstance(v,type) and not k.startswith('__') and not k.isupper() "
+                     "and getattr(typing,k,None) is not v and (typing.get_origin(v) is not None or isinstance(v,typing.ForwardRef)))) and k not in T.ALL_TYPES_MAP]\nprint(json.dumps(d))"],
+                    capture_output=True, text=True)
+try:
+    for k in json.loads(_p.stdout.strip().splitlines()[-1]):
+        issue(k, "type not in registry", "present (history: import lsprotocol.types; read ALL_TYPES_MAP)", "absent")
+except Exception:
+    issue("registry", "fresh-interpreter probe failed", None, (_p.stdout + _p.stderr)[-200:])
 print(json.dumps(issues))
